@@ -17,17 +17,25 @@ def run(cmd, cwd=None, timeout=1800):
     p = subprocess.run(cmd, shell=True, cwd=cwd, env=ENV, capture_output=True, text=True, timeout=timeout)
     return p.returncode, (p.stdout + p.stderr)
 try:
-    # locate demo test files in the agent worktree (untracked *_test.go) and copy them over
-    st = subprocess.run(["git", "-C", agent, "status", "--porcelain", "--untracked-files=all"], capture_output=True, text=True).stdout
-    demos = [l[3:] for l in st.splitlines() if l.startswith("??") and l.endswith("_test.go") and "SEEDED" not in l]
-    for d in demos:
-        os.makedirs(os.path.dirname(os.path.join(wt, d)), exist_ok=True)
-        shutil.copy(os.path.join(agent, d), os.path.join(wt, d))
+    # demo test files: the copies delivered in the SEEDED dir, placed by their package clause
+    PKGDIR = {"tests": "tests", "fri": "fri", "plonk": "plonk", "gates": "plonk/gates", "goldilocks": "goldilocks", "poseidon": "poseidon",
+              "challenger": "challenger", "verifier": "verifier", "types": "types", "variables": "variables", "cmd": "cmd"}
+    demos = []
+    for f in sorted(glob.glob(os.path.join(sd, "*_test.go"))):
+        pkg = "tests"
+        for line in open(f):
+            if line.startswith("package "):
+                pkg = line.split()[1].replace("_test", "")
+                break
+        rel = os.path.join("gnark-plonky2-verifier", PKGDIR.get(pkg, "tests"), os.path.basename(f))
+        shutil.copy(f, os.path.join(wt, rel))
+        demos.append(rel)
+    agent_demo_src = {d: os.path.join(sd, os.path.basename(d)) for d in demos}
     demo_cmd = meta["demo_cmd"].replace(agent, wt)
-    if "git apply" in demo_cmd:  # SEEDED2 style commands that switch patches: keep only the go test part
-        demo_cmd = demo_cmd[demo_cmd.index("cd "):] if "cd " in demo_cmd else demo_cmd
-        parts = [p for p in demo_cmd.split("&&") if "git apply" not in p]
-        demo_cmd = "&&".join(parts)
+    # keep only the `go test` invocation (some commands also apply patches / copy files first)
+    parts = [p.strip() for p in demo_cmd.replace(";", "&&").split("&&")]
+    gotest = [p for p in parts if "go test" in p]
+    demo_cmd = "cd %s/gnark-plonky2-verifier && %s" % (wt, gotest[-1]) if gotest else demo_cmd
     rc0, out0 = run(demo_cmd, cwd=wt)
     log.append("demo without change: rc=%d" % rc0)
     rc, out = run("git apply %s" % os.path.join(sd, "patch.diff"), cwd=wt)
@@ -60,7 +68,7 @@ try:
         os.makedirs(dst)
         shutil.copy(os.path.join(sd, "patch.diff"), dst)
         for d in demos:
-            shutil.copy(os.path.join(agent, d), os.path.join(dst, os.path.basename(d)))
+            shutil.copy(agent_demo_src[d], os.path.join(dst, os.path.basename(d)))
         meta["demo_files"] = demos
         meta["confirmed_by_main"] = log
         json.dump(meta, open(os.path.join(dst, "meta.json"), "w"), indent=1)
